@@ -57,6 +57,9 @@ func (d *Deadliner) Expire(duty core.Duty) {
 	d.ch <- duty
 }
 
+// Emit sends the duty on C() without touching its status (the second half of Expire, for a trim that lags).
+func (d *Deadliner) Emit(duty core.Duty) { d.ch <- duty }
+
 // MarkExpired only flips the status (no emission).
 func (d *Deadliner) MarkExpired(duty core.Duty) {
 	d.mu.Lock()
